@@ -23,6 +23,7 @@ KF_FILE = os.path.join(VERIF, "KNOWN_FINDINGS.txt")
 # ------------------------------------------------------------------------------------------------
 SEM = ["small", "small-nosse"]
 WRAP = ["small-wrap", "small-nosse-wrap"]
+WRAPS = ["small-wrap-strict", "small-nosse-wrap-strict"]
 STRICT4 = ["small-strict", "small-nosse-strict", "small-ts-wrap-strict", "small-wrap-strict"]
 FAULT3 = ["small-wrap-strict", "small-ts-wrap-strict", "small-nosse-wrap-strict", "small-posix-wrap-strict"]
 
@@ -51,7 +52,10 @@ PLANS = {
     "C10": P("exploration", WRAP, 2000, 400, WRAP, 8000, 800),
     "C11": P("exploration", STRICT4, 10000, 400, STRICT4, 30000, 800, strict=True, san_to_stderr=True),
     "C13": P("exploration", ["small", "small-nosse", "mid"], 48000, 500, ["small", "small-nosse", "mid", "host"], 150000, 1200, shards=15),
-    "C14": P("exploration", WRAP, 1500, 100, WRAP + ["small-ts-wrap-strict"], 5000, 100, case_timeout=900),
+    # allocator misuse that ASan can see (double free, free of a live block, use after free) IS this property's violation:
+    # builds in which any sanitizer report is fatal
+    "C14": P("exploration", WRAPS, 1500, 100, WRAPS + ["small-ts-wrap-strict"], 5000, 100, case_timeout=900, strict=True,
+             san_to_stderr=True),
     "C17": P("exploration", SEM, 60000, 400, SEM + ["host"], 200000, 1000),
     "C18": P("exploration", ["small-strict", "small-nosse-strict"], 2000, 300, ["small-strict", "small-nosse-strict"], 8000, 600,
              strict=True, san_to_stderr=True),
